@@ -39,6 +39,30 @@ def _classify(info):
     return "values"
 
 
+def _raw_build_failure(tpl, exc):
+    """The real pipeline (DAG / semantic analysis / transpiler) raised while preparing a template.  A VTL error means the template is not a
+    valid script (harness problem); anything else is an internal error of the real code for a script that semantic analysis accepts: it is
+    confirmed through the real run() on a one-datapoint input and then reported as a violation (raw error)."""
+    import pandas as pd
+    from vt import realrun as R
+    from vtlengine.Exceptions import VTLEngineException
+    if isinstance(exc, VTLEngineException):
+        return None
+    structs = R.structures(*tpl["structs"], scalars=tpl.get("scalars") or None)
+    DEF = {"Integer": 1, "Number": 1.5, "String": "a", "Boolean": True, "Date": "2020-01-01", "Time_Period": "2020-M01", "Time": "2020-01-01/2020-01-31", "Duration": "M"}
+    dfs = {}
+    for s_ in tpl["structs"]:
+        dfs[s_["name"]] = pd.DataFrame({c["name"]: pd.Series([DEF.get(c["type"], 1)], dtype=object) for c in s_["DataStructure"]})
+    try:
+        R.run_ast(tpl["ast"], structs, dfs, **({"scalar_values": tpl.get("scalar_values")} if tpl.get("scalar_values") else {}))
+    except VTLEngineException:
+        return None
+    except Exception as e2:  # noqa
+        return dict(inputs={k: v.to_dict("records") for k, v in dfs.items()}, observed="raw %s: %s" % (type(e2).__name__, str(e2)[:300]), raw_error=True,
+                    what="run() raised a raw (non-VTL) error", status="reproduced")
+    return None
+
+
 def _evaluator(tpl):
     if tpl.get("evaluator") == "time":
         from vt.sqlsmt.timeeval import TimeEvaluator
@@ -56,8 +80,16 @@ def run_template(tpl):
         from vt.spec import ref as REF
         from vt.astb import render
         out["script"] = render(tpl["ast"])
-        case = H.Case(tpl["id"], tpl["ast"], tpl["structs"], nrows=tpl.get("nrows", 2), scalars=tpl.get("scalars"),
-                      scalar_values=tpl.get("scalar_values"), opts=tpl.get("opts"), evaluator_cls=_evaluator(tpl)).build()
+        try:
+            case = H.Case(tpl["id"], tpl["ast"], tpl["structs"], nrows=tpl.get("nrows", 2), scalars=tpl.get("scalars"),
+                          scalar_values=tpl.get("scalar_values"), opts=tpl.get("opts"), evaluator_cls=_evaluator(tpl)).build()
+        except Exception as e:  # noqa
+            info = _raw_build_failure(tpl, e)
+            if info is None:
+                raise
+            info["script"] = out["script"]
+            out.update(status="violated", key="%s:%s" % (tpl["id"], _classify(info)), info=info, what=info["what"] + " - " + info["observed"][:160])
+            return out
         out["sql"] = [q[1][:600] for q in case.pipe.queries]
         if tpl.get("probe_first"):
             # contexts whose failure is decided by the schema, not by the data (case-variant names collide inside DuckDB for every input): the real
@@ -332,8 +364,14 @@ def run_invariants(tpl):
         from vtlengine.Exceptions import VTLEngineException
         from vtlengine.Model import Dataset
         out["script"] = render(tpl["ast"])
-        case = H.Case(tpl["id"], tpl["ast"], tpl["structs"], nrows=tpl.get("nrows", 2), scalars=tpl.get("scalars"),
-                      scalar_values=tpl.get("scalar_values"), opts=tpl.get("opts"), evaluator_cls=_evaluator(tpl)).build()
+        try:
+            case = H.Case(tpl["id"], tpl["ast"], tpl["structs"], nrows=tpl.get("nrows", 2), scalars=tpl.get("scalars"),
+                          scalar_values=tpl.get("scalar_values"), opts=tpl.get("opts"), evaluator_cls=_evaluator(tpl)).build()
+        except Exception as e:  # noqa
+            if _raw_build_failure(tpl, e) is None:
+                raise
+            out.update(status="not_encoded", reason="the real pipeline raises a raw error for this script (reported by the property the template belongs to and by C32)")
+            return out
         try:
             case.encode()
         except (Unsupported, sqlglot_errors.ParseError) as e:
@@ -454,8 +492,14 @@ def run_order(tpl):
         from vt import realrun as R
         from vtlengine.Exceptions import VTLEngineException
         out["script"] = render(tpl["ast"])
-        case = H.Case(tpl["id"], tpl["ast"], tpl["structs"], nrows=tpl.get("nrows", 2), scalars=tpl.get("scalars"),
-                      scalar_values=tpl.get("scalar_values"), opts=tpl.get("opts"), evaluator_cls=_evaluator(tpl)).build()
+        try:
+            case = H.Case(tpl["id"], tpl["ast"], tpl["structs"], nrows=tpl.get("nrows", 2), scalars=tpl.get("scalars"),
+                          scalar_values=tpl.get("scalar_values"), opts=tpl.get("opts"), evaluator_cls=_evaluator(tpl)).build()
+        except Exception as e:  # noqa
+            if _raw_build_failure(tpl, e) is None:
+                raise
+            out.update(status="not_encoded", reason="the real pipeline raises a raw error for this script (reported by the property the template belongs to and by C32)")
+            return out
         try:
             case.encode()
         except (Unsupported, sqlglot_errors.ParseError) as e:
@@ -578,8 +622,18 @@ def run_errors(tpl):
         opts = dict(tpl.get("opts") or {})
         opts["int64"] = True
         opts.pop("int_bound", None)
-        case = H.Case(tpl["id"], tpl["ast"], tpl["structs"], nrows=tpl.get("nrows", 2), scalars=tpl.get("scalars"),
-                      scalar_values=tpl.get("scalar_values"), opts=opts, evaluator_cls=_evaluator(tpl)).build()
+        try:
+            case = H.Case(tpl["id"], tpl["ast"], tpl["structs"], nrows=tpl.get("nrows", 2), scalars=tpl.get("scalars"),
+                          scalar_values=tpl.get("scalar_values"), opts=opts, evaluator_cls=_evaluator(tpl)).build()
+        except Exception as e:  # noqa
+            info = _raw_build_failure(tpl, e)
+            if info is None:
+                raise
+            exc = (re.match(r"raw (\w+)", info["observed"]) or [None, "?"])[1]
+            out["subs"].append(dict(id="%s:transpile" % tpl["id"], tag="transpile", script=out["script"], solver_s=0.0, verdict="concrete", status="violated",
+                                    inputs=info["inputs"], observed=info["observed"], key="C32:transpile:%s:raw-%s" % (tpl["id"].split(".")[-1], exc),
+                                    what="run() lets %s escape" % info["observed"][:200]))
+            return out
         try:
             case.encode()
         except (Unsupported, sqlglot_errors.ParseError) as e:
